@@ -1,4 +1,5 @@
 import Driver.Codec
+import XModel.ManagerC18Expr
 /-! Line-protocol suite `mgr`: replays a manager history on `XModel.Manager`. -/
 namespace DMgr
 open Lean Store Push Index Manager Codec
@@ -110,6 +111,11 @@ def step (s0 : MState) (j : Json) : MState × Json :=
       (s2, obs s2 x [("sched", .str verdict), ("hyp", hypJson s2 m p),
                      ("scope", .bool (callScopeB sched s (.setExpr p e))),
                      ("scope_f", .bool (callOKFB sched s (.setExpr p e))),
+                     -- C18, expression assignment under an armed fault: the decidable hypotheses of
+                     -- `C18_recover_expression_assignment` about the faulty attempt (`exprFaultScopeB`); `fault_armed` says
+                     -- whether a fault was armed for this line at all
+                     ("fault_armed", .bool s.faultIn.isSome),
+                     ("scope_e18", .bool (s.faultIn.isSome && exprFaultScopeB sched s p e)),
                      ("order", .arr ((findTaskids m (chainR p)).map pathToJson).toArray)])
     | _, _ => bad s "setexpr"
   | some "iop" =>
